@@ -20,7 +20,7 @@ class GenCase:
         p = self.params
         return "\n".join(["CASE %s" % self.cid,
                           "new 0 %s %d %d %d %s" % (self.ind, p[0], p[1], p[2], hx(p[3])),
-                          "g 0 %d %d %d %s %s %d %d" % (self.gen, self.seed, self.length, hx(self.a), hx(self.b), self.every, 1 if self.bars else 0),
+                          "g 0 %d %d %d %s %s %d %d" % (self.gen, self.seed, self.length, hx(self.a), hx(self.b), self.every, int(self.bars)),
                           "END"])
 
     def coq_text(self):
@@ -30,7 +30,7 @@ class GenCase:
         chunks = "; ".join("0x%xp+0%%float" % c for c in (h & 0x1FFFFF, (h >> 21) & 0x1FFFFF, h >> 42))
         return ("mkGcase %s (Pm %d %d %d %s) (mkGen %d %d %d%%N %s %s %d%%N %s) %d%%nat [%s] [%s] %s"
                 % (KIND[self.ind], p[0], p[1], p[2], coqf(p[3]), self.gen, self.seed, self.length, coqf(self.a), coqf(self.b),
-                   self.every, "true" if self.bars else "false", self.wlen, exp, chunks, coqf(max(abs(self.a), abs(self.b)))))
+                   self.every, "%d%%uint63" % int(self.bars), self.wlen, exp, chunks, coqf(max(abs(self.a), abs(self.b)))))
 
     def to_json(self):
         return {"id": self.cid, "indicator": self.ind, "params": [self.params[0], self.params[1], self.params[2], hx(self.params[3])],
